@@ -288,6 +288,21 @@ func execClearsignOne(vec J, out *Writer, echo J) {
 			obs["paras"] = parasToJ(handed)
 		}
 	}()
+	// the signed TEXT read as a plain document (no armor, no keyring): what a valid signature covers is that text
+	plainObs := J{"ok": false, "paras": []interface{}{}}
+	func() {
+		defer func() { recover() }()
+		rd, err := control.NewParagraphReader(bytes.NewReader(text), nil)
+		if err != nil {
+			return
+		}
+		ps, err := rd.All()
+		if err != nil {
+			return
+		}
+		plainObs["ok"] = true
+		plainObs["paras"] = parasToJ(ps)
+	}()
 	// the same source read all at once
 	allObs := J{"ok": false, "n": 0, "panic": false, "foreign": false}
 	func() {
@@ -348,7 +363,7 @@ func execClearsignOne(vec J, out *Writer, echo J) {
 		"armor_start": bytes.HasPrefix(b, []byte("-----BEGIN PGP ")),
 		"decodes":     now.decodes, "canon_same": now.decodes && orig.decodes && bytes.Equal(now.canon, orig.canon),
 		"sigpkt_same": now.decodes && orig.decodes && bytes.Equal(now.sigpkt, orig.sigpkt) && len(now.sigpkt) > 0,
-		"len":         len(b), "obs": obs, "slice": sliceObs, "all": allObs, "foreign_in_all": hasForeign("paras"), "foreign_in_next": hasForeign("next_paras")})
+		"len":         len(b), "obs": obs, "slice": sliceObs, "all": allObs, "plain": plainObs, "foreign_in_all": hasForeign("paras"), "foreign_in_next": hasForeign("next_paras")})
 }
 
 // faultySource delivers data, then fails once, then delivers `after`
